@@ -120,14 +120,33 @@ func verifHarness_C12_init_failure_conf(kind int) {
 	case 3:
 		n.OutVersion = V1
 		n.OutKey = new(frame.V2Key)
+	case 4:
+		// stream requests asked for with a dialect that lacks the stream-request message: whether the node treats
+		// that as "module off" (it does) or as an error, nothing may be left behind
+		n.StreamRequestEnable = true
+		n.Dialect = &dialect.Dialect{Version: 3, Messages: []message.Message{&minimal.MessageHeartbeat{}}}
+	case 5:
+		n.StreamRequestEnable = true
+		n.Dialect = nil
 	}
 	var ierr error
 	stillBlocked := verifRunGoroutines(func() { ierr = n.Initialize() })
+	if kind >= 4 {
+		if ierr == nil {
+			stillBlocked = verifRunGoroutines(func() { n.Close() })
+			verifAssert(!stillBlocked && verifBlockedGoroutines() == 0, "C12/init-failure/no-goroutine-left-behind")
+			verifAssert(ep1.closed == 1 && ep2.closed == 1, "C12/close-releases-every-endpoint")
+			verifReach("C12/init-failure-conf")
+			return
+		}
+	}
 	verifAssert(ierr != nil, "C12/init-failure/reported")
 	verifAssert(!stillBlocked && verifBlockedGoroutines() == 0, "C12/init-failure/no-goroutine-left-behind")
 	verifAssert(ep1.closed+ep2.closed == inits, "C12/init-failure/every-endpoint-set-up-is-closed")
 	verifAssert(ep1.closed <= 1 && ep2.closed <= 1, "C12/init-failure/closed-at-most-once")
-	verifAssert(ep1.calls == 0 && ep2.calls == 0, "C12/init-failure/no-provider-started")
+	if kind < 4 {
+		verifAssert(ep1.calls == 0 && ep2.calls == 0, "C12/init-failure/no-provider-started")
+	}
 	verifReach("C12/init-failure-conf")
 }
 
